@@ -3,6 +3,7 @@
    tokens (`parent,prev,comp,cond,str,tag,extra,dirs`); `next` / `children` are derived
    the way configparser.y links them (`Cond.link`). -/
 import LtVerif.Model.Cond
+import LtVerif.Proofs.Cond
 namespace Driver
 open LtVerif LtVerif.B LtVerif.Cond
 
@@ -193,6 +194,18 @@ def showOp (n : Nat) (op : Op) (st : List Req) (o : Obs) : String :=
 def runOps (t : Tree) (n : Nat) : List String → List Req → List String → Option (List String)
   | [], _, acc => some acc.reverse
   | tok :: rest, st, acc =>
+    -- "h,s": http_response_config() = full reset, then the core patch_config
+    if tok.startsWith "h," then
+      match (tok.drop 2).toNat? with
+      | some s =>
+        if s < st.length then
+          let (st1, _) := step true t st (.resetAll s)
+          let (st2, o) := step true t st1 (.patch s [0, 1, 2])
+          let out := showOp n (.patch s [0, 1, 2]) st2 o
+          runOps t n rest st2 (("h" ++ out.drop 1) :: acc)
+        else none
+      | none => none
+    else
     match opOf n st.length tok with
     | none => none
     | some op =>
@@ -213,7 +226,8 @@ def condLine : List String → String
       let t := link (nds.map (·.1))
       let n := t.length
       if n = 0 then "bad-op" else
-      let tree := toString n ++ String.join (((List.range n).drop 1).map fun i =>
+      -- "W1": the tree satisfies the well-formedness hypothesis `WF` of the C14 theorems
+      let tree := toString n ++ (if decide (WF t) then " W1" else " W0") ++ String.join (((List.range n).drop 1).map fun i =>
         " " ++ dumpNode i (t.node i) ((nds.getD i default).2))
       match runOps t n opToks [Req.fresh n] [] with
       | none => "bad-op"
